@@ -1494,6 +1494,56 @@ func scenarioStaleTimeoutNow(r *vh.Rand) (string, []string) {
 	return g.c.Header(), g.ops
 }
 
+// scenario 27: a non-voting member is cut off while its promotion to a full member is
+// committed and applied by everybody else and the log is compacted beyond what it holds: it
+// learns its new role from the InstallSnapshot it is then sent (role change by snapshot
+// restore). With one of the old voters down afterwards its vote is needed.
+func scenarioPromotedBySnapshot(r *vh.Rand) (string, []string) {
+	g := newScenarioGen(r, 3, uint64(5+r.Intn(3)), r.Bool(), false)
+	if !g.elect(1, nil) {
+		return g.c.Header(), g.ops
+	}
+	g.addNonVoting(1, 4)
+	g.propose(1)
+	g.settle(nil)
+	cut := func() { g.dropPool(func(m pb.Message) bool { return m.To == 4 || m.From == 4 }) }
+	trio := only(1, 2, 3)
+	g.nextKey++
+	g.cc(1, uint64(pb.AddNode), 4)
+	g.update(1)
+	cut()
+	g.settle(trio)
+	for i := 0; i < 2+r.Intn(3) && !g.Stopped; i++ {
+		g.propose(1)
+		cut()
+		g.settle(trio)
+	}
+	for _, k := range []uint64{1, 2, 3} {
+		g.update(k)
+		g.apply(k, 100)
+	}
+	cut()
+	g.settle(trio)
+	for _, k := range []uint64{1, 2, 3} {
+		g.update(k)
+		g.apply(k, 100)
+		g.snapshot(k, 0)
+	}
+	g.dropPool(func(m pb.Message) bool { return true })
+	// the partition heals: the leader has to bring 4 up to date with a snapshot
+	for i := 0; i < 8 && !g.Stopped; i++ {
+		g.do("T 1")
+		g.update(1)
+		g.settle(nil)
+		for _, k := range g.liveIDs() {
+			g.update(k)
+			g.apply(k, 100)
+		}
+	}
+	g.settle(nil)
+	return g.c.Header(), g.ops
+}
+
 var scenarios = []func(r *vh.Rand) (string, []string){
 	scenarioTransferWithUnappliedChange,
 	scenarioVoteRace, scenarioTransferRemove, scenarioDeposedLeaderRead, scenarioDelayedConfirmation,
@@ -1504,5 +1554,5 @@ var scenarios = []func(r *vh.Rand) (string, []string){
 	scenarioOnlyFullMemberRead, scenarioMatchingSnapshotBehindLog, scenarioSnapshotWithoutWitness,
 	scenarioQueuedReplicateAndTruncation, scenarioCommitAfterShrink,
 	scenarioRemovalWhileReadPending, scenarioForwardedReadToNewLeader, scenarioVoteOnlyStateChange,
-	scenarioWitnessLeaseAfterLeaderCrash, scenarioStaleTimeoutNow,
+	scenarioWitnessLeaseAfterLeaderCrash, scenarioStaleTimeoutNow, scenarioPromotedBySnapshot,
 }
